@@ -203,13 +203,14 @@ def run_case(case):
     if not np.any(ref != 0):
         return None          # the identically-zero operator is outside the property
     try:
-        mpo = with_alarm(60.0, lambda: construct(case))
+        mpo = with_alarm(60.0, lambda: hamlib.call_again_after_mutation(lambda: construct(case), case))
     except CaseTimeout:
         return 'constructor does not return within 60 s'
     except Exception as ex:
         return f'constructor raises {type(ex).__name__}: {ex}'
+    again = ' (second call with the same arguments, after the first result was modified in place)' if getattr(mpo, '_verif_note', None) else ''
     if len(mpo.A) != L:
-        return f'MPO has {len(mpo.A)} sites, expected {L}'
+        return f'MPO has {len(mpo.A)} sites, expected {L}' + again
     if [int(x) for x in mpo.qd] is None or len(mpo.qd) != d:
         return f'physical dimension {len(mpo.qd)}, expected {d}'
     M = np.asarray(mpo.as_matrix())
@@ -218,7 +219,7 @@ def run_case(case):
     scale = max(1.0, float(np.max(np.abs(ref))))
     err = float(np.max(np.abs(M - ref)))
     if err > 1e-12 * scale:
-        return f'dense matrix differs from the documented formula by {err:.3e}'
+        return f'dense matrix differs from the documented formula by {err:.3e}' + again
     if case['model'] != 'linfermi':
         herr = float(np.max(np.abs(M - M.conj().T)))
         if herr > 1e-12 * scale:
